@@ -98,6 +98,7 @@ let () =
   let pol_threads = ref [] in
   let pol_scans = ref [] in
   let srv = ref (new_server N0) in
+  let msrv = ref (new_mserver N0) in
   let dump () =
     let st = !w.w_store in
     let lines = List.map (fun (k, r) ->
@@ -168,6 +169,12 @@ let () =
           Printf.fprintf oc "MEM below-limit-all-hit=1 stored-pinned-to-limit=1\n"
       | ["PROBE"; c] ->
           Printf.fprintf oc "SERVED %s %d\n" c (if mem_nat (nat_of_int (int_of_string c)) !srv.sv_active then 1 else 0)
+      (* several listeners over one limit (Model/Listeners.v) *)
+      | ["MLIMIT"; l] -> msrv := new_mserver (n_of_string l)
+      | ["MCONN"; c; l] -> msrv := ms_step !msrv (MConnect (nat_of_int (int_of_string l), nat_of_int (int_of_string c)))
+      | ["MEND"; c; _] -> msrv := ms_step !msrv (MEnd (nat_of_int (int_of_string c), WEof))
+      | ["MPROBE"; c] ->
+          Printf.fprintf oc "SERVED %s %d\n" c (if mem_nat (nat_of_int (int_of_string c)) !msrv.ms_active then 1 else 0)
       | "TH" :: _ :: _ -> conc_threads := !conc_threads @ [line]
       | "MOPS" :: _ -> ()   (* the memcache-level commands: for replays on the implementation *)
       | "PTH" :: _ :: _ -> pol_threads := !pol_threads @ [line]
